@@ -636,7 +636,8 @@ procedure DropFuture(xf) {
 z_df:
   if (K(xf) # "fsync" \/ sfst[xf] = "Done") { h := ObsDropped(h, self, xf); rv[self] := 0; return; }
   else {
-    if (sfst[xf] = "WFF") { h := ObsEnd(h, self, xf); };
+    \* the user future (if it was started) is destroyed first, then the completion sender
+    h := IF sfst[xf] = "WFF" THEN ObsEnd(ObsDropped(h, self, xf), self, xf) ELSE ObsDropped(h, self, xf);
     sfst[xf] := "Done";
     if (dnState[xf] = "open") {
       dnState[xf] := "dropped";
@@ -644,7 +645,6 @@ z_df:
     }
   };
 z_df2:
-  h := ObsDropped(h, self, xf);
   rv[self] := 0;
   return;
 }
@@ -3629,10 +3629,7 @@ z_df(self) == /\ pc[self] = "z_df"
                          /\ xf' = [xf EXCEPT ![self] = Head(stack[self]).xf]
                          /\ stack' = [stack EXCEPT ![self] = Tail(stack[self])]
                          /\ UNCHANGED << sfst, dnState, ww >>
-                    ELSE /\ IF sfst[xf[self]] = "WFF"
-                               THEN /\ h' = ObsEnd(h, self, xf[self])
-                               ELSE /\ TRUE
-                                    /\ h' = h
+                    ELSE /\ h' = (IF sfst[xf[self]] = "WFF" THEN ObsEnd(ObsDropped(h, self, xf[self]), self, xf[self]) ELSE ObsDropped(h, self, xf[self]))
                          /\ sfst' = [sfst EXCEPT ![xf[self]] = "Done"]
                          /\ IF dnState[xf[self]] = "open"
                                THEN /\ dnState' = [dnState EXCEPT ![xf[self]] = "dropped"]
@@ -3661,7 +3658,6 @@ z_df(self) == /\ pc[self] = "z_df"
                               wf, wop, sf, sctx, pf, pctx, pq, pj, pd, nq >>
 
 z_df2(self) == /\ pc[self] = "z_df2"
-               /\ h' = ObsDropped(h, self, xf[self])
                /\ rv' = [rv EXCEPT ![self] = 0]
                /\ pc' = [pc EXCEPT ![self] = Head(stack[self]).pc]
                /\ xf' = [xf EXCEPT ![self] = Head(stack[self]).xf]
@@ -3673,7 +3669,7 @@ z_df2(self) == /\ pc[self] = "z_df2"
                                gthreads, dwSt, dwW, dblTaken, dblW1, dblW2, 
                                nextDW, ready, cwait, cnotif, cvHeld, sdres, 
                                jpanic, sfst, slotSt, qrSent, qrWaker, dnState, 
-                               dnWaker, parkTok, rwb, rneed, dsl, dead, sti, 
+                               dnWaker, parkTok, rwb, rneed, dsl, h, dead, sti, 
                                rq, sq, sj, ww, rsq, bown, bwk, bi, bcur, bw, 
                                jq, jj, jwk, fj, dq, dj, oq, oop, omode, oj, yq, 
                                yop, tq, top, af, wf, wop, sf, sctx, pf, pctx, 
